@@ -16,4 +16,6 @@ PY
 (cd harness && CARGO_TARGET_DIR=/verif/.cache/target cargo build --offline 2>&1 | tail -2)
 # 3. rustfmt's own binaries from the working tree, hooks on
 (cd /repo && CARGO_TARGET_DIR=/verif/.cache/target-bins RUSTFLAGS="--cfg rustfmt_verif" cargo build --offline --bins 2>&1 | tail -2)
+# 4. the frozen reference harness (pinned sources under /verif/frozen; C09)
+(cd harness_frozen && CARGO_TARGET_DIR=/verif/.cache/target-frozen cargo build --offline 2>&1 | tail -2)
 echo setup done
